@@ -527,6 +527,10 @@ func HoldsAt(at ssa.Instruction, pred func(Fact) bool) bool {
 	return holdsIn(FactsAtInstr(at), pred, 0)
 }
 
+// HoldsGiven is HoldsAt over an explicit set of facts (e.g. the facts at a
+// return extended by "the returned value is true").
+func HoldsGiven(fs []Fact, pred func(Fact) bool) bool { return holdsIn(fs, pred, 0) }
+
 func holdsIn(fs []Fact, pred func(Fact) bool, depth int) bool {
 	if HasFact(fs, pred) {
 		return true
